@@ -115,7 +115,7 @@ func genArch(t *rapid.T, focus string, class string) ArchSpec {
 	if len(cons) > 1 {
 		cons = rapid.Permutation(cons).Draw(t, "so_order")
 	}
-	vt := class == "r2v-vtm" || (set["r2v"] && rapid.IntRange(0, 5).Draw(t, "vtm") == 0)
+	vt := class == "r2v-vtm" || (class == "" && set["r2v"] && rapid.IntRange(0, 5).Draw(t, "vtm") == 0)
 	if vt {
 		w := pick(t, "vtw", []int{2, 4, 16, 20, 40})
 		h := pick(t, "vth", []int{1, 4, 16, 25})
